@@ -2,15 +2,36 @@
 implementation's answer lines."""
 from __future__ import annotations
 
+import zlib
 from fractions import Fraction
 
 from harness.interp import Harness
 
 
+def apply_edit_script(cur: list[tuple[str, str]], script: list) -> list[tuple[str, str]]:
+    new = list(cur)
+    fresh = 0
+    for step in script:
+        if step[0] == "append":
+            fresh += 1
+            new.append((f"new_{len(new)}_{fresh}_{zlib.crc32(step[1].encode()) % 9973}", step[1]))
+        elif step[0] == "change" and new:
+            k = int(step[1] * len(new))
+            new[k] = (new[k][0], step[2])
+        elif step[0] == "delete" and new:
+            k = int(step[1] * len(new))
+            del new[k]
+        elif step[0] == "insert":
+            fresh += 1
+            k = int(step[1] * (len(new) + 1))
+            new.insert(k, (f"ins_{len(new)}_{fresh}_{zlib.crc32(step[2].encode()) % 9973}", step[2]))
+    return new
+
+
 def run_case(case: dict) -> tuple[list[str], list[str]]:
     import openpectus.lang.model.ast as p
     h = Harness(case["pcode"])
-    lines = h.node_lines()
+    lines = h.node_lines() + h.content_lines()
     outs = ["ok"] * len(lines)
     scheduled: list[int] = []
     for op in case["ops"]:
@@ -40,6 +61,15 @@ def run_case(case: dict) -> tuple[list[str], list[str]]:
                 continue
             lines.append(f"{kind}\t{k}")
             outs.append(h.cancel(k) if kind == "cancel" else h.force(k))
+        elif kind == "edit":
+            # op[1]: edit script applied to the current method lines: list of ("append", text) |
+            # ("change", selector, text) | ("delete", selector) | ("insert", selector, text)
+            cur = [(ln.id, ln.content) for ln in h.mm._method.lines]
+            new = apply_edit_script(cur, op[1])
+            defs, ans = h.edit(new)
+            lines += defs
+            outs += ["ok"] * (len(defs) - 1) + [ans]
+            scheduled = []
         elif kind == "inject":
             node_lines, op_line = h.inject(op[1])
             lines += node_lines + [op_line]
